@@ -22,6 +22,19 @@ def run(ctx):
     cov["distinct_nontrivial"] += cov["gated_sessions"]
     cov["evaluations"] += cov["gated_sessions"]
     cov["gated_trace_rejects"] = len(rj)
+    # "every fid it was shown, exactly once" across a disconnect: sessions cut at a random step with slow FidDestroy /
+    # ConnClosed callbacks (fids being created while the close sweep runs)
+    cc = srvfam.consts(ctx, NReq=5, Tags=set(range(1, 6)), Fids={1, 2, 3}, Kinds={"Attach", "Stat", "Clunk", "Walk"}, Late=True, InitFids={1, 2},
+                       CanClose=True)
+    rcc = {"cases": 150 if q else 1500, "nreq": 5, "kinds": ["Attach", "Attach", "Walk", "Stat", "Clunk"], "shared": False, "close": True,
+           "extra": False, "latep": 20, "sendp": 50, "probe": False, "closevariants": True, "cbgate": True}
+    crep, tpc, epc, bpc = srvfam.random_run(ctx, cc, rcc, "c04close", 450000)
+    vdc, elc = srvfam.run_monitor(ctx, epc, name="Mon9P:c04close")
+    srvfam.report_verdicts(ctx, vdc, {"C04"}, bpc, cc, "TestRandom")
+    cov["close_sessions"] = int(crep.get("cases_total", 0) or 0)
+    cov["traces_validated_against_impl"] += cov["close_sessions"]
+    cov["distinct_nontrivial"] += cov["close_sessions"]
+    cov["evaluations"] += cov["close_sessions"]
     return ctx.finish("model_checking", cov, assumptions=[
         "histories are sequential (one request at a time) for the table/refusal rules; the ordering of FidDestroy against the invalidating "
         "reply is observed in clunk-heavy concurrent sessions under the gate controller",
